@@ -873,6 +873,35 @@ func (n *normalizer) stmt(s ast.Stmt, gc *nGen, allow bool) []nEdit {
 
 // Normalise computes the overlay (nil when nothing qualifies).
 func Normalise(dir string, overlay map[string][]byte, extraEnv []string) (*normResult, error) {
+	// first pass: loops over constant tables become straight-line code
+	var unrollNotes []string
+	var unrolled map[string][]byte
+	if uo, notes := unrollTables(dir, overlay, extraEnv); len(uo) > 0 {
+		merged := map[string][]byte{}
+		for k, v := range overlay {
+			merged[k] = v
+		}
+		for k, v := range uo {
+			merged[k] = v
+		}
+		overlay, unrolled, unrollNotes = merged, uo, notes
+	}
+	res, err := normalise2(dir, overlay, extraEnv)
+	if len(unrolled) > 0 {
+		if res == nil {
+			res = &normResult{Overlay: map[string][]byte{}}
+		}
+		for k, v := range unrolled {
+			if _, has := res.Overlay[k]; !has {
+				res.Overlay[k] = v
+			}
+		}
+		res.Inlined = append(res.Inlined, unrollNotes...)
+	}
+	return res, err
+}
+
+func normalise2(dir string, overlay map[string][]byte, extraEnv []string) (*normResult, error) {
 	fresh := false
 	cur := listFuncs(dir, overlay)
 	moved := map[string]bool{}
@@ -1241,4 +1270,408 @@ func blankUnusedImports(fn string, src []byte) []byte {
 	}
 	b.Write(src[cur:])
 	return b.Bytes()
+}
+
+// ---- table unrolling --------------------------------------------------------
+//
+// A refactoring that replaces an if-chain by a loop over a package-level table of
+// struct literals (`for _, e := range table { if test(e.key) { return e.fn(...) } }`)
+// keeps the behaviour but hides the chain from rules that read decision tables out
+// of branch conditions. When the table is provably constant — a package-level
+// slice/array variable initialised by a composite literal of struct literals whose
+// fields are literals, constants or functions, and whose only uses are `range`
+// operands — and the loop variable is used only through field selectors, and the
+// body neither breaks nor continues the loop, the loop is replaced (in the overlay)
+// by one copy of its body per element with `e.field` replaced by the element's
+// field expression. No such loop exists in the pinned tree.
+
+func unrollTables(dir string, overlay map[string][]byte, extraEnv []string) (map[string][]byte, []string) {
+	// cheap syntactic trigger
+	fset0 := token.NewFileSet()
+	trigger := false
+	for _, p := range moduleGoFiles(dir, overlay) {
+		var src any
+		if b, ok := overlay[p]; ok {
+			src = b
+		}
+		f, err := parser.ParseFile(fset0, p, src, parser.SkipObjectResolution)
+		if err != nil {
+			continue
+		}
+		tables := map[string]bool{}
+		for _, d := range f.Decls {
+			gd, ok := d.(*ast.GenDecl)
+			if !ok || gd.Tok != token.VAR {
+				continue
+			}
+			for _, sp := range gd.Specs {
+				vs := sp.(*ast.ValueSpec)
+				for i, nm := range vs.Names {
+					if i < len(vs.Values) {
+						if cl, ok := vs.Values[i].(*ast.CompositeLit); ok {
+							if at, ok := cl.Type.(*ast.ArrayType); ok {
+								switch at.Elt.(type) {
+								case *ast.StructType, *ast.Ident:
+									if len(cl.Elts) > 0 {
+										if _, isLit := cl.Elts[0].(*ast.CompositeLit); isLit {
+											tables[nm.Name] = true
+										}
+									}
+								}
+							}
+						}
+					}
+				}
+			}
+		}
+		_ = tables
+		ast.Inspect(f, func(c ast.Node) bool {
+			if rs, ok := c.(*ast.RangeStmt); ok {
+				if id, ok := rs.X.(*ast.Ident); ok && id.Obj == nil {
+					trigger = true
+				}
+			}
+			return true
+		})
+	}
+	if !trigger {
+		return nil, nil
+	}
+	cfg := &packages.Config{Mode: packages.LoadSyntax, Dir: dir, Env: loadEnv(extraEnv...), Overlay: overlay}
+	pkgs, err := packages.Load(cfg, "./...")
+	if err != nil {
+		return nil, nil
+	}
+	out := map[string][]byte{}
+	var notes []string
+	for _, p := range pkgs {
+		if len(p.Errors) > 0 || p.TypesInfo == nil {
+			return nil, nil
+		}
+		info := p.TypesInfo
+		// candidate tables: package-level var -> element literals
+		type table struct {
+			obj   *types.Var
+			elems []*ast.CompositeLit
+			st    *types.Struct
+		}
+		tables := map[*types.Var]*table{}
+		for _, f := range p.Syntax {
+			for _, d := range f.Decls {
+				gd, ok := d.(*ast.GenDecl)
+				if !ok || gd.Tok != token.VAR {
+					continue
+				}
+				for _, sp := range gd.Specs {
+					vs := sp.(*ast.ValueSpec)
+					if len(vs.Names) != len(vs.Values) {
+						continue
+					}
+					for i, nm := range vs.Names {
+						cl, ok := vs.Values[i].(*ast.CompositeLit)
+						if !ok {
+							continue
+						}
+						obj, _ := info.Defs[nm].(*types.Var)
+						if obj == nil {
+							continue
+						}
+						var elt types.Type
+						switch t := obj.Type().Underlying().(type) {
+						case *types.Slice:
+							elt = t.Elem()
+						case *types.Array:
+							elt = t.Elem()
+						default:
+							continue
+						}
+						st, ok := elt.Underlying().(*types.Struct)
+						if !ok {
+							continue
+						}
+						tb := &table{obj: obj, st: st}
+						good := len(cl.Elts) > 0 && len(cl.Elts) <= 32
+						for _, e := range cl.Elts {
+							ecl, ok := e.(*ast.CompositeLit)
+							if !ok {
+								good = false
+								break
+							}
+							for _, fe := range ecl.Elts {
+								v := fe
+								if kv, ok := fe.(*ast.KeyValueExpr); ok {
+									v = kv.Value
+								}
+								if !constantLike(info, v) {
+									good = false
+								}
+							}
+							tb.elems = append(tb.elems, ecl)
+						}
+						if good {
+							tables[obj] = tb
+						}
+					}
+				}
+			}
+		}
+		if len(tables) == 0 {
+			continue
+		}
+		// every use of the table is a range operand
+		rangeOf := map[*ast.Ident]*ast.RangeStmt{}
+		for _, f := range p.Syntax {
+			ast.Inspect(f, func(c ast.Node) bool {
+				if rs, ok := c.(*ast.RangeStmt); ok {
+					if id, ok := ast.Unparen(rs.X).(*ast.Ident); ok {
+						rangeOf[id] = rs
+					}
+				}
+				return true
+			})
+		}
+		for id, o := range info.Uses {
+			if v, ok := o.(*types.Var); ok && tables[v] != nil && rangeOf[id] == nil {
+				delete(tables, v)
+			}
+		}
+		for _, f := range p.Syntax {
+			fn := p.Fset.PositionFor(f.Pos(), false).Filename
+			src, ok := overlay[fn]
+			if !ok {
+				b, err := os.ReadFile(fn)
+				if err != nil {
+					continue
+				}
+				src = b
+			}
+			off := func(pos token.Pos) int { return p.Fset.PositionFor(pos, false).Offset }
+			line := func(pos token.Pos) int { return p.Fset.PositionFor(pos, false).Line }
+			var edits []nEdit
+			ast.Inspect(f, func(c ast.Node) bool {
+				rs, ok := c.(*ast.RangeStmt)
+				if !ok {
+					return true
+				}
+				id, ok := ast.Unparen(rs.X).(*ast.Ident)
+				if !ok {
+					return true
+				}
+				tv, _ := info.Uses[id].(*types.Var)
+				tb := tables[tv]
+				if tb == nil || rs.Tok != token.DEFINE {
+					return true
+				}
+				var keyObj, valObj types.Object
+				if k, ok := rs.Key.(*ast.Ident); ok && k.Name != "_" {
+					keyObj = info.Defs[k]
+				}
+				if v, ok := rs.Value.(*ast.Ident); ok && v.Name != "_" {
+					valObj = info.Defs[v]
+				}
+				// the loop variable is only read through field selectors; no break/continue of this loop
+				okBody := true
+				type sub struct {
+					start, end int
+					field      string
+					isKey      bool
+				}
+				var subs []sub
+				selOf := map[*ast.Ident]*ast.SelectorExpr{}
+				ast.Inspect(rs.Body, func(x ast.Node) bool {
+					if se, ok := x.(*ast.SelectorExpr); ok {
+						if xi, ok := se.X.(*ast.Ident); ok {
+							selOf[xi] = se
+						}
+					}
+					return true
+				})
+				depth := 0
+				var walk func(x ast.Node)
+				walk = func(x ast.Node) {
+					ast.Inspect(x, func(y ast.Node) bool {
+						switch z := y.(type) {
+						case *ast.ForStmt, *ast.RangeStmt, *ast.SwitchStmt, *ast.TypeSwitchStmt, *ast.SelectStmt:
+							if y != ast.Node(rs.Body) {
+								depth++
+								for _, ch := range directChildren(y) {
+									walk(ch)
+								}
+								depth--
+								return false
+							}
+						case *ast.BranchStmt:
+							if z.Label != nil || z.Tok == token.GOTO || (depth == 0 && (z.Tok == token.BREAK || z.Tok == token.CONTINUE)) {
+								okBody = false
+							}
+							if depth > 0 && z.Tok == token.CONTINUE {
+								// continue inside a switch/select of the body still targets this loop
+								okBody = false
+							}
+						case *ast.LabeledStmt:
+							okBody = false
+						case *ast.Ident:
+							o := info.Uses[z]
+							if o != nil && o == valObj {
+								se := selOf[z]
+								if se == nil {
+									okBody = false
+								} else {
+									subs = append(subs, sub{off(se.Pos()), off(se.End()), se.Sel.Name, false})
+								}
+							}
+							if o != nil && o == keyObj {
+								subs = append(subs, sub{off(z.Pos()), off(z.End()), "", true})
+							}
+						case *ast.AssignStmt:
+							for _, l := range z.Lhs {
+								if li, ok := l.(*ast.Ident); ok && (info.Uses[li] == valObj || info.Uses[li] == keyObj) && info.Uses[li] != nil {
+									okBody = false
+								}
+							}
+						case *ast.UnaryExpr:
+							if z.Op == token.AND {
+								if xi, ok := z.X.(*ast.Ident); ok && info.Uses[xi] != nil && info.Uses[xi] == valObj {
+									okBody = false
+								}
+							}
+						}
+						return true
+					})
+				}
+				walk(rs.Body)
+				if !okBody {
+					return true
+				}
+				// field expression text per element
+				fieldText := func(ecl *ast.CompositeLit, name string) (string, bool) {
+					idx := -1
+					for i := 0; i < tb.st.NumFields(); i++ {
+						if tb.st.Field(i).Name() == name {
+							idx = i
+						}
+					}
+					if idx < 0 {
+						return "", false
+					}
+					for i, fe := range ecl.Elts {
+						if kv, ok := fe.(*ast.KeyValueExpr); ok {
+							if k, ok := kv.Key.(*ast.Ident); ok && k.Name == name {
+								return "(" + string(src[off(kv.Value.Pos()):off(kv.Value.End())]) + ")", true
+							}
+							continue
+						}
+						if i == idx {
+							return "(" + string(src[off(fe.Pos()):off(fe.End())]) + ")", true
+						}
+					}
+					// not given: zero value
+					switch t := tb.st.Field(idx).Type().Underlying().(type) {
+					case *types.Basic:
+						switch {
+						case t.Info()&types.IsString != 0:
+							return `""`, true
+						case t.Info()&types.IsBoolean != 0:
+							return "false", true
+						case t.Info()&types.IsNumeric != 0:
+							return "0", true
+						}
+					case *types.Signature, *types.Pointer, *types.Slice, *types.Map, *types.Interface, *types.Chan:
+						return "nil", true
+					}
+					return "", false
+				}
+				var b strings.Builder
+				b.WriteString("{")
+				for k, ecl := range tb.elems {
+					var es []nEdit
+					good := true
+					for _, s := range subs {
+						if s.isKey {
+							es = append(es, nEdit{s.start, s.end, strconv.Itoa(k)})
+							continue
+						}
+						txt, ok := fieldText(ecl, s.field)
+						if !ok {
+							good = false
+						}
+						es = append(es, nEdit{s.start, s.end, txt})
+					}
+					if !good {
+						return true
+					}
+					sort.Slice(es, func(i, j int) bool { return es[i].start < es[j].start })
+					fmt.Fprintf(&b, "\n//line %s:%d\n", fn, line(rs.Body.Lbrace))
+					cur := off(rs.Body.Lbrace)
+					for _, e := range es {
+						b.Write(src[cur:e.start])
+						b.WriteString(e.text)
+						cur = e.end
+					}
+					b.Write(src[cur:off(rs.Body.Rbrace)+1])
+				}
+				fmt.Fprintf(&b, "\n}\n//line %s:%d\n", fn, line(rs.End()))
+				edits = append(edits, nEdit{off(rs.Pos()), off(rs.End()), b.String()})
+				notes = append(notes, fmt.Sprintf("%s:%d: loop over the constant table %s unrolled (%d elements)", strings.TrimPrefix(fn, dir+"/"), line(rs.Pos()), tv.Name(), len(tb.elems)))
+				return false
+			})
+			if len(edits) == 0 {
+				continue
+			}
+			sort.Slice(edits, func(i, j int) bool { return edits[i].start < edits[j].start })
+			var nb bytes.Buffer
+			cur := 0
+			for _, e := range edits {
+				if e.start < cur {
+					continue
+				}
+				nb.Write(src[cur:e.start])
+				nb.WriteString(e.text)
+				cur = e.end
+			}
+			nb.Write(src[cur:])
+			out[fn] = nb.Bytes()
+		}
+	}
+	if len(out) == 0 {
+		return nil, nil
+	}
+	return out, notes
+}
+
+// constantLike: literals, constants, nil/true/false, package-level functions, and operators over them.
+func constantLike(info *types.Info, e ast.Expr) bool {
+	switch x := e.(type) {
+	case *ast.BasicLit:
+		return true
+	case *ast.ParenExpr:
+		return constantLike(info, x.X)
+	case *ast.UnaryExpr:
+		return x.Op != token.AND && x.Op != token.ARROW && constantLike(info, x.X)
+	case *ast.BinaryExpr:
+		return constantLike(info, x.X) && constantLike(info, x.Y)
+	case *ast.Ident:
+		switch o := info.Uses[x].(type) {
+		case *types.Const, *types.Nil:
+			return true
+		case *types.Func:
+			return o.Type().(*types.Signature).Recv() == nil
+		}
+		return false
+	case *ast.SelectorExpr:
+		switch info.Uses[x.Sel].(type) {
+		case *types.Const:
+			return true
+		case *types.Func:
+			_, isPkg := info.Uses[identOf(x.X)].(*types.PkgName)
+			return isPkg
+		}
+		return false
+	}
+	return false
+}
+
+func identOf(e ast.Expr) *ast.Ident {
+	id, _ := e.(*ast.Ident)
+	return id
 }
